@@ -142,6 +142,10 @@ func (e *Engine) callContract(fr *Frame, st *State, callee *ssa.Function, ct *Co
 	}
 	// assert_at hooks of the caller's contract
 	// frame
+	if ct.ModAny {
+		e.unknownCall(st, "call "+key+" (modifies unspecified)")
+		delete(e.unmod, "call "+key+" (modifies unspecified)")
+	}
 	for _, d := range ct.Modifies {
 		n := *env
 		n.cl = &d
@@ -187,6 +191,7 @@ type Loc struct {
 	Slot   Sort
 	Rid    Term
 	Lo, Hi Term
+	All    bool // the whole map (every region of that type)
 }
 
 // designator evaluates a modifies designator into locations:
@@ -194,6 +199,20 @@ type Loc struct {
 func (env *Env) designator(x ast.Expr) []Loc {
 	e := env.e
 	a := e.ar
+	// all(T): every location of every region holding values of type T
+	if ce, ok := x.(*ast.CallExpr); ok {
+		if id, ok := ce.Fun.(*ast.Ident); ok && id.Name == "all" && len(ce.Args) == 1 {
+			t, err := resolveType(ce.Args[0], env.pkg)
+			if err != nil {
+				env.fail("modifies all(T): %v", err)
+			}
+			var locs []Loc
+			for _, s := range e.slots(t) {
+				locs = append(locs, Loc{Key: heapKey(t, s.Path), Slot: s.Sort, All: true})
+			}
+			return locs
+		}
+	}
 	// split trailing field selectors
 	var fields []string
 	cur := x
@@ -299,6 +318,11 @@ func (env *Env) designator(x ast.Expr) []Loc {
 }
 
 func (e *Engine) havocLoc(st *State, l Loc) {
+	if l.All {
+		st.heap[l.Key] = e.fresh(e.heapSort(l.Slot), "havocAll:"+l.Key)
+		keySorts[l.Key+"|"+e.ar.mode.String()] = e.heapSort(l.Slot)
+		return
+	}
 	e.havocKeyRange(st, l.Key, l.Slot, l.Rid, l.Lo, l.Hi)
 }
 
@@ -323,6 +347,9 @@ func (e *Engine) frameFormula(st *State, key string, slot Sort, quantified bool)
 	var inSet []Term
 	for _, l := range e.modLocs {
 		if l.Key == key {
+			if l.All {
+				return TTrue
+			}
 			inSet = append(inSet, And(Eq(r, l.Rid), a.idxLe(l.Lo, i), a.idxLt(i, l.Hi)))
 		}
 	}
